@@ -187,6 +187,10 @@ func c10Configs() []CfgLit {
 		{Origins: []string{"https://a.example", "https://b.example"}, PNA: true, Methods: []string{"PUT"}, RequestHeaders: []string{"X-A"}},
 		{Origins: []string{"https://a.example", "https://b.example"}, PNANoCORS: true, Methods: []string{"PUT"}, RequestHeaders: []string{"X-A"}, ResponseHeaders: []string{"X-R"}},
 		{Origins: []string{"*"}, Methods: []string{"*"}, RequestHeaders: []string{"*", "Authorization"}, ResponseHeaders: []string{"*"}, Status: 200},
+		{Origins: []string{"*", "https://a.example"}, Methods: []string{"PUT"}, RequestHeaders: []string{"X-A"}, ResponseHeaders: []string{"X-R"}},
+		{Origins: []string{"https://b.example", "*", "https://a.example"}, RequestHeaders: []string{"*"}},
+		{Origins: []string{"https://*.example:*"}, TolPSL: true, Credentialed: true, PNANoCORS: true, Methods: []string{"PUT"}, RequestHeaders: []string{"X-A", "Authorization"}, MaxAge: -1},
+		{Origins: []string{"https://a.example"}},
 	}
 }
 
